@@ -196,8 +196,8 @@ SPECIAL = {
 # the fallback function + full `getAttrWithFallback#<attr>` variant), the others stay in OUT_OF_REACH (explicit half only).
 _PF, _PS = g("openTypeNamePreferredFamilyName"), g("openTypeNamePreferredSubfamilyName")
 _VMJ, _VMN = g("versionMajor"), g("versionMinor")
-# str(minor).zfill(3): zero-filled to three characters (a sign counts and stays in front)
-_ZFILL3 = (f"ite({_VMN} >= 100 or {_VMN} <= -10, str({_VMN}), ite({_VMN} >= 10, '0' + str({_VMN}), ite({_VMN} >= 0, '00' + str({_VMN}), '-0' + str(-{_VMN}))))")
+# str(minor).zfill(3): zero-filled to three characters, Python's own str.zfill (library; uninterpreted in the logic)
+_ZFILL3 = f"str({_VMN}).zfill(3)"
 SPECIAL_PENDING = {
     "postscriptFullName": dict(ty=TXT, fn="postscriptFullNameFallback", formula=f"{_PF} + ' ' + {_PS}", canary="result == 'New Font Regular'"),
     "postscriptFontName": dict(
@@ -216,7 +216,7 @@ SPECIAL_PENDING = {
         canary="result == '0.000;NONE;NewFont-Regular'",
     ),
 }
-ENABLED = set()
+ENABLED = {"postscriptFullName", "postscriptFontName", "openTypeNameVersion", "openTypeNameUniqueID"}
 for _a in sorted(ENABLED):
     SPECIAL[_a] = SPECIAL_PENDING[_a]
 
@@ -671,9 +671,9 @@ lemma(
 # every attribute, and a bare namespace that has only the listed ones) with random subsets of attributes;
 # falsy explicit values (0, 0.0, False, "", []) are drawn often
 _VALUES = {
-    INT.key: [0, 0, 1, 3, 5, 12, 50, 100, 999, 1000],
+    INT.key: [0, 0, 1, 3, 5, 12, 50, 100, 999, 1000, -5, -12],
     NUM.key: [0, 0.0, 1, -1, 500, 1000, 2048, 750.5, -250.25, 12.5, 180],
-    TXT.key: ["", "Regular", "Bold", " bold italic ", "Italic", "Ünï cødé", "A  B", "x"],
+    TXT.key: ["", "Regular", "Bold", " bold italic ", "Italic", "Ünï cødé", "A  B", "x", "Version 2.5", "Version Version 1", "a[b] (c)/d", "字 体"],
     BOOL.key: [False, True],
     INTS.key: [[], [0], [1, 2], [0, 0, 5], [0, 1, 2, 3, 4, 5, 6, 7, 8, 9], [3, 4]],
     NUMS.key: [[], [0, 10], [-20, 0, 500, 510.5]],
@@ -682,6 +682,7 @@ _VALUES = {
 _CORE = [
     "unitsPerEm", "ascender", "descender", "italicAngle", "familyName", "styleName", "styleMapStyleName", "openTypeOS2TypoLineGap",
     "openTypeNamePreferredFamilyName", "openTypeNamePreferredSubfamilyName", "openTypeHheaCaretSlopeRun", "openTypeHheaCaretSlopeRise",
+    "versionMajor", "versionMinor", "openTypeNameVersion", "openTypeOS2VendorID", "postscriptFontName",
 ]
 
 
